@@ -1,5 +1,5 @@
 package main
 
 func init() {
-	mirror("note.open", "note.isvalidname", "note.chop", "note.sign")
+	mirror("note.open", "note.isvalidname", "note.chop", "note.sign", "note.newverifier", "note.newsigner")
 }
